@@ -830,6 +830,43 @@ func init() {
 					}
 					return true
 				})
+				// KeyGroupRangeFromBytes(start, end): Start is computed from the first argument only, End
+				// from the second only
+				if fn.Obj.Name() == "KeyGroupRangeFromBytes" {
+					inspect(fn.Decl.Body, func(nd ast.Node) bool {
+						kv, isKV := nd.(*ast.KeyValueExpr)
+						if !isKV {
+							return true
+						}
+						id, isID := kv.Key.(*ast.Ident)
+						if !isID {
+							return true
+						}
+						val := ast.Node(kv.Value)
+						uses := func(i int) bool {
+							found := false
+							inspectValue(fi, kv.Value, func(m ast.Node) bool {
+								if exprMentionsParam(fi, fn, m, i) {
+									found = true
+								}
+								return !found
+							})
+							return found
+						}
+						_ = val
+						switch id.Name {
+						case "Start":
+							if !uses(0) || uses(1) {
+								r.Fail(fn.Name()+":start-operand", kv.Pos(), nil, "the range's Start is not computed from the first key alone")
+							}
+						case "End":
+							if !uses(1) || uses(0) {
+								r.Fail(fn.Name()+":end-operand", kv.Pos(), nil, "the range's End is not computed from the last key alone: a table that spans several operators' ranges is taken for one that lies inside the first of them, so it is judged exclusively owned and deleted without asking the neighbours")
+							}
+						}
+						return true
+					})
+				}
 				r.Site(fn.Decl.Pos(), fn.Name()+": inclusive end group -> exclusive End")
 				if !okEnd {
 					r.Fail(fn.Name()+":end+1", fn.Decl.Pos(), nil, "%s must turn the table's last (inclusive) key group into an exclusive range End by adding 1: a table whose last key is in this operator's first group would be judged foreign", fn.Name())
